@@ -2061,4 +2061,32 @@ theorem createAt_events_fixed {env : Env} (hv : env.v.fixReturn = true) (st : St
           simp only
           cases st.readableAt name <;> exact Or.inl rfl
 
+/-- **`create … from` with the pull inside `parseFromModel`** is `Good` for the two names it may write: the
+    invariant is preserved, and every other model keeps its manifest file and its blobs — for ANY target `nm` and
+    lookup name `sn` (resolved or not), any registry answer whose manifest is truthful (`PullOk`). -/
+theorem createFromPull_good {env : Env} (hinj : HashInj env) {st : Store} (hb : BlobsOk env st)
+    (hc : Guard env st) (hk : env.v.fixKeep = true) (r : CreateReq) (hf : ∀ d ∈ r.files, GD env d)
+    (nm sn : Name) (reg : Manifest) (served : List (String × Bytes)) (hp : PullOk env reg) :
+    Good env st (createFromPull env st r nm sn reg served).1 [nm, sn] := by
+  unfold createFromPull
+  simp only
+  have hap : ∀ (s : Store), ApartReq env s { r with src := some sn } false :=
+    fun s b _ => apart_of_fixKeep hk _ _ _
+  cases hm : st.man sn with
+  | some f =>
+    simp only
+    exact (createAt_good hinj hb hc { r with src := some sn } hf nm false (hap st)).1.mono (T' := [nm, sn])
+      (by intro n hn; simp at hn ⊢; exact Or.inl hn)
+  | none =>
+    simp only
+    have g1 : Good env st (pullAt env st sn (some reg) served).1 [nm, sn] :=
+      (pullAt_good hb hc sn (some reg) served (fun m e => by injection e with e; subst e; exact hp)).mono
+        (T' := [nm, sn]) (by intro n hn; simp at hn ⊢; exact Or.inr hn)
+    split
+    · simp only
+      have g2 := (createAt_good hinj g1.blobsOk g1.canon { r with src := some sn } hf nm false (hap _)).1.mono
+        (T' := [nm, sn]) (by intro n hn; simp at hn ⊢; exact Or.inl hn)
+      exact g1.trans g2
+    · exact g1
+
 end OllamaVerif.Store
